@@ -1,3 +1,4 @@
+mod actors;
 mod graphs;
 mod hooks;
 
@@ -13,6 +14,7 @@ fn main() {
     let par: usize = arg(&args, "--par").and_then(|s| s.parse().ok()).unwrap_or(1);
     match cmd {
         "graphs" => graphs::main_graphs(&inp, &out, par),
+        "actors" => actors::main_actors(&inp, &out, args.iter().any(|a| a == "--real-counts")),
         _ => {
             eprintln!("usage: vh <graphs> --in F --out F [--par N]");
             std::process::exit(2);
